@@ -29,18 +29,22 @@ S64 == TInt("Int64", Unset, Unset)
 I32 == TInt("Int32", Unset, Unset)
 Str == TStr(Unset, Unset, "")
 
-Cfgs == {[chain |-> c, pns |-> p, arg |-> a, dep |-> d, style |-> s, ring |-> r] :
+\* rsv: the shared namespace is called `async`, a Python reserved word (the generated module is then async_)
+Cfgs == {[chain |-> c, pns |-> p, arg |-> a, dep |-> d, style |-> s, ring |-> r, rsv |-> FALSE] :
             c \in {"two", "marker3"}, p \in {"same", "foreign"}, a \in {"struct", "union", "void"},
             d \in {"none", "plain", "by"}, s \in {"rpc", "upload", "download"}, r \in {FALSE}}
-        \cup {[chain |-> "two", pns |-> "foreign", arg |-> "struct", dep |-> "none", style |-> "rpc", ring |-> TRUE]}
+        \cup {[chain |-> "two", pns |-> "foreign", arg |-> "struct", dep |-> "none", style |-> "rpc", ring |-> TRUE, rsv |-> FALSE]}
+        \cup {[chain |-> ch, pns |-> p, arg |-> a, dep |-> "none", style |-> "rpc", ring |-> FALSE, rsv |-> TRUE] :
+                ch \in {"two", "marker3"}, p \in {"same", "foreign"}, a \in {"struct", "union", "void"}}
 CfgIndex(c) == CHOOSE i \in 1..Cardinality(Cfgs) : TRUE
 CfgSeq == SetToSeq(Cfgs)
 
 \* namespaces: na (routes, leaf types), nb (ancestors, shared types), nc (routes only / ring member)
-AncNs(c) == IF c.pns = "same" THEN "na" ELSE "nb"
+NB(c) == IF c.rsv THEN "async" ELSE "nb"
+AncNs(c) == IF c.pns = "same" THEN "na" ELSE NB(c)
 Schema(c) ==
-    ("Color" :> DUnion("nb", "", TRUE, <<Tag("red", TVoid), Tag("green", TVoid)>>)) @@
-    ("Name"  :> DAlias("nb", TStr(1, Unset, ""), "")) @@
+    ("Color" :> DUnion(NB(c), "", TRUE, <<Tag("red", TVoid), Tag("green", TVoid)>>)) @@
+    ("Name"  :> DAlias(NB(c), TStr(1, Unset, ""), "")) @@
     ("Entry" :> DStruct(AncNs(c), "", <<Fld("ident", Str), Fld("label", TNull(Str)), FldD("rank", S64, VInt(13))>>, <<>>, FALSE)) @@
     (IF c.chain = "marker3"
      THEN ("PinnedEntry" :> DStruct(AncNs(c), "Entry", <<>>, <<>>, FALSE)) ELSE <<>>) @@
@@ -52,20 +56,40 @@ Schema(c) ==
                            Fld("note", TNull(TRef("Name"))),
                            Fld("count", I32)>>, <<>>, FALSE)) @@
     ("Choice" :> DUnion("na", "", FALSE, <<Tag("none_tag", TVoid), Tag("text", Str), Tag("entry", TRef("Entry")),
-                                           Tag("maybe", TNull(TRef("Upload"))), Tag("color", TRef("Color"))>>)) @@
+                                           Tag("maybe", TNull(TRef("Upload"))), Tag("color", TRef("Color")),
+                                           Tag("grid", TList(TList(Str, Unset, Unset), Unset, Unset)),
+                                           Tag("flags", TNull(TList(TBool, Unset, Unset)))>>)) @@
     ("More" :> DUnion("na", "Choice", FALSE, <<Tag("extra", I32), Tag("plain", TVoid)>>)) @@
     ("Up" :> DAlias("na", TRef("Upload"), "")) @@
     ("MaybeName" :> DAlias("na", TNull(TRef("Name")), "")) @@
     ("Tree" :> DStruct("na", "", <<Fld("t", I32)>>, <<Sub("leaf_a", "LeafA")>>, TRUE)) @@
     ("LeafA" :> DStruct("na", "Tree", <<Fld("x", TList(TRef("Name"), Unset, Unset))>>, <<>>, FALSE)) @@
-    (IF c.ring THEN ("Yb" :> DStruct("nb", "", <<Fld("z", TNull(TRef("Zc")))>>, <<>>, FALSE)) @@
+    \* every remaining primitive and nested containers (lists of lists, maps of lists, lists of nullables)
+    ("Grid" :> DStruct("na", "", <<Fld("mask", TList(TList(TBool, Unset, Unset), Unset, Unset)),
+                                   Fld("rows", TNull(TList(TList(Str, Unset, Unset), Unset, Unset))),
+                                   Fld("stamp", TTs("f1")),
+                                   Fld("blob", TBytes(Unset, Unset)),
+                                   Fld("f32", TFloat("Float32", Unset, Unset)),
+                                   Fld("u64", TNull(TInt("UInt64", Unset, Unset))),
+                                   Fld("by_name", TMap(TList(I32, Unset, Unset))),
+                                   Fld("holes", TList(TNull(Str), Unset, Unset)),
+                                   Fld("cells", TList(TList(TRef("Entry"), Unset, Unset), Unset, Unset))>>, <<>>, FALSE)) @@
+    (IF c.ring THEN ("Yb" :> DStruct(NB(c), "", <<Fld("z", TNull(TRef("Zc")))>>, <<>>, FALSE)) @@
                     ("Zc" :> DStruct("nc", "", <<Fld("e", TNull(TRef("Upload")))>>, <<>>, FALSE))
      ELSE <<>>)
 
 \* routes: [ns, n, ver, arg, res, err, dep (kind), by (<<name, ver>>), style]
 ArgType(c) == CASE c.arg = "struct" -> TRef("Upload") [] c.arg = "union" -> TRef("More") [] c.arg = "void" -> TVoid
+\* the route schema (stone_cfg.Route), in declaration order: a defaulted and a nullable attribute come BEFORE a
+\* required one, so "schema order" differs from "required first"
+RouteSchema == <<"host", "scope", "auth", "style">>
 Route(ns, n, ver, arg, res, dep, by, style) ==
-    [ns |-> ns, n |-> n, ver |-> ver, arg |-> arg, res |-> res, err |-> TVoid, dep |-> dep, by |-> by, style |-> style]
+    [ns |-> ns, n |-> n, ver |-> ver, arg |-> arg, res |-> res, err |-> TVoid, dep |-> dep, by |-> by, style |-> style,
+     auth |-> "user", scope |-> IF ver = 3 THEN "files.read" ELSE ""]
+AStr(x) == [k |-> "str", s |-> x]
+ANull   == [k |-> "null"]
+\* attribute values of a route in schema order: host is never written (default "api"), scope is nullable
+AttrVals(r) == <<AStr("api"), IF r.scope = "" THEN ANull ELSE AStr(r.scope), AStr(r.auth), AStr(r.style)>>
 RoutesOf(c) == <<
     Route("na", "put", 1, ArgType(c), TRef("Entry"), c.dep, IF c.dep = "by" THEN <<"put", 2>> ELSE <<>>, c.style),
     Route("na", "put", 2, ArgType(c), TVoid, "none", <<>>, "rpc"),
@@ -74,7 +98,10 @@ RoutesOf(c) == <<
     Route("nc", "ping", 1, TVoid, TVoid, "none", <<>>, "rpc"),
     \* (in the ring model nc must import na only, or nb <-> nc would be a direct mutual import)
     Route("nc", "whoami", 1, TVoid, IF c.ring THEN TVoid ELSE TRef("Entry"), "none", <<>>, "rpc") >>
-Namespaces(c) == {"na", "nb", "nc"}
+Namespaces(c) == {"na", NB(c), "nc"}
+\* python_types names a module after its namespace, with an underscore appended to Python reserved words
+PyReserved == {"async", "class", "for", "pass", "while", "break", "continue", "import", "from", "global", "lambda"}
+PyModule(ns) == IF ns \in PyReserved THEN ns \o "_" ELSE ns
 
 \* ------------------------------------------------------------- imports and loading
 RECURSIVE TypeRefs(_)
@@ -161,7 +188,7 @@ PySurface(c, ns) ==
     LET sc == Schema(c)
         mine == {n \in DOMAIN sc : sc[n].ns = ns}
         rts == {RoutesOf(c)[i] : i \in {j \in DOMAIN RoutesOf(c) : RoutesOf(c)[j].ns = ns}}
-    IN  [ns |-> ns,
+    IN  [ns |-> ns, pymod |-> PyModule(ns),
          structs |-> {StructSurface(sc, n) : n \in {x \in mine : sc[x].k = "struct"}},
          unions  |-> {UnionSurface(sc, n) : n \in {x \in mine : sc[x].k = "union"}},
          validators |-> mine,                                          \* <Name>_validator for every type and alias
@@ -170,7 +197,7 @@ PySurface(c, ns) ==
          routes |-> {[n |-> r.n, ver |-> r.ver, deprecated |-> r.dep # "none", arg |-> r.arg, res |-> r.res,
                       err |-> r.err, style |-> r.style,
                       \* what a client function of this route requests: URL, argument or null, attribute values
-                      url |-> [ns |-> ns, n |-> r.n, ver |-> r.ver], has_arg |-> r.arg.k # "void", attrs |-> <<r.style>>,
+                      url |-> [ns |-> ns, n |-> r.n, ver |-> r.ver], has_arg |-> r.arg.k # "void", attrs |-> AttrVals(r), attr_names |-> RouteSchema,
                       arg_sym |-> Sym(sc, ns, r.arg), res_sym |-> Sym(sc, ns, r.res), err_sym |-> Sym(sc, ns, r.err)] : r \in rts}]
 
 \* ------------------------------------------------------------- client calls (C14)
